@@ -8,7 +8,7 @@
    open-recursion step), the option groups and the CLI wiring are TRANSLATED from the
    sources into Generated/Gen_C13.v on every run; this file ties the recursive knot and
    adds the hand-modelled layers above deep_update.  Object identity (aliasing, in-place
-   mutation seen through another reference) is the subject of ConfigHeap.v.
+   mutation seen through another reference) is the subject of ConfigAlias.v.
    Executable definitions only; proofs live in ConfigThm.v. *)
 From Verif Require Export ConfigBase Gen_C13.
 Open Scope N_scope.
@@ -49,7 +49,35 @@ Fixpoint du (t s : cv) {struct s} : cv :=
 (* merging a list of sources in order: `for s in sources: target = deep_update(target, s)` *)
 Definition du_all (base : cv) (srcs : list cv) : cv := fold_left du srcs base.
 
+(* the loop of deep_update as a top-level function of the recursive call (ConfigThm.du_node:
+   du (Node tm) (Node sm) = Node (du_fold du sm tm)) *)
+Fixpoint du_fold (rec : cv -> cv -> cv) (sm tm : list (key * cv)) {struct sm} : list (key * cv) :=
+  match sm with
+  | [] => tm
+  | (k, v) :: sm' => du_fold rec sm' (du_item rec tm k v)
+  end.
+
 (* ---- precedence specification (independent of the code's recursion) ------------------- *)
+
+(* the binding of one key after a leaf `v` was offered to it (cur = binding before) *)
+Definition leaf_rule (cur : option cv) (v : cv) : cv :=
+  match cur with
+  | Some c => if is_default v && negb (is_default c) then c else v
+  | None => v
+  end.
+
+(* per-key law of one deep_update: binding of a key of the target after the merge, from its
+   binding before (cur) and the source's binding (new) *)
+Definition merge1 (cur new : option cv) : option cv :=
+  match new with
+  | None => cur
+  | Some (Node m) => Some (du (match cur with Some c => c | None => Node [] end) (Node m))
+  | Some (Leaf d a) => Some (leaf_rule cur (Leaf d a))
+  end.
+
+(* mention of a path by a document: None / a leaf *)
+Definition is_leaf_opt (o : option cv) : bool :=
+  match o with None => true | Some (Leaf _ _) => true | Some (Node _) => false end.
 
 (* what a later mention `new` does to the current value `cur` of one key *)
 Definition pick (cur : option cv) (new : option cv) : option cv :=
@@ -140,6 +168,57 @@ Definition get_config_value_raw (sections : list (key * cv)) (section k : key) :
   | _ => None
   end.
 
+(* ---- Language: options seen by templates ------------------------------------------------ *)
+
+(* Language.__init__: self._language_options = self._validate_language_options(
+       config.get_config_value_as_dict(section, "defaults", {}), config.get_config_value_as_dict(section, "options", {}))
+   get_config_value_as_dict returns the dict stored in the section (the same object) or the {} default;
+   a non-dict value with a non-None default returns the default.
+   `validate` is the language's _validate_language_options on (defaults, options): the cpp one is
+   Gen_C13.cpp_validate_language_options (translated), the py one py_validate, the base class the identity.
+   The options dict is updated IN PLACE, i.e. the section's `options` entry changes too when it exists. *)
+Inductive lang_kind := LkBase | LkCpp | LkPy.
+
+Definition dict_or_empty (o : option cv) : list (key * cv) :=
+  match o with Some (Node m) => m | _ => [] end.
+
+(* py: options["enable_serialization_asserts"] = True *)
+Definition py_validate (options : list (key * cv)) : list (key * cv) :=
+  dset [101; 110; 97; 98; 108; 101; 95; 115; 101; 114; 105; 97; 108; 105; 122; 97; 116; 105; 111; 110; 95; 97; 115; 115; 101; 114; 116; 115]
+       (Leaf false (ABool true)) options.
+
+Definition validate (lk : lang_kind) (defaults options : list (key * cv)) : option (list (key * cv)) :=
+  match lk with
+  | LkBase => Some options
+  | LkCpp => cpp_validate_language_options defaults options
+  | LkPy => Some (py_validate options)
+  end.
+
+(* content of the options dict after the call, whether or not it raised (the dict is mutated in place
+   before the later checks of the cpp validator can raise) *)
+Definition validate_effect (lk : lang_kind) (defaults options : list (key * cv)) : list (key * cv) :=
+  match lk with
+  | LkBase => options
+  | LkCpp => match dget cpp_key_std options with
+             | Some sv => match cpp_apply_group defaults options sv with Some o => o | None => options end
+             | None => options
+             end
+  | LkPy => py_validate options
+  end.
+
+(* (language options | None = the constructor raised, sections after the in-place update) *)
+Definition language_init (lk : lang_kind) (sections : list (key * cv)) (section : key)
+  : option (list (key * cv)) * list (key * cv) :=
+  let sec := dict_or_empty (dget section sections) in
+  let defaults := dict_or_empty (dget key_defaults sec) in
+  let options := dict_or_empty (dget key_options sec) in
+  (validate lk defaults options,
+   match dget section sections, dget key_options sec with
+   | Some (Node _), Some (Node _) =>
+       dset section (Node (dset key_options (Node (validate_effect lk defaults options)) sec)) sections
+   | _, _ => sections
+   end).
+
 (* ---- LanguageContextBuilder ----------------------------------------------------------- *)
 
 Record builder := {
@@ -172,13 +251,39 @@ Definition bapply (b : builder) (op : bop) : builder :=
 Definition section_of (lang : key) : key :=
   [110; 117; 110; 97; 118; 117; 116; 46; 108; 97; 110; 103; 46] ++ lang.   (* "nunavut.lang." ++ lang *)
 
-(* create(): update the target language's section with the stored overrides.  The target
-   language must have been set (the inference from the file extension when it was not is not
-   modelled). Returns the sections the new context reports. *)
+(* _resolve_target_language: an explicit language wins; without one and without an `extension`
+   override the default language is used (the inference from an `extension` override by searching
+   the sections is not modelled: None) *)
+Definition resolve_language (b : builder) : option key :=
+  match b_lang b with
+  | Some l => Some l
+  | None => match dget [101; 120; 116; 101; 110; 115; 105; 111; 110] (b_over b) with   (* "extension" *)
+            | None => Some default_language
+            | Some _ => None
+            end
+  end.
+
+(* create(): update the target language's section with the stored overrides (deep_update, so
+   DefaultValue-marked overrides do not displace file values).  Returns the sections the new
+   context reports (before the target Language object validates its options in place). *)
 Definition bcreate (b : builder) : option (list (key * cv)) :=
-  match b_sections b, b_lang b with
+  match b_sections b, resolve_language b with
   | Some s, Some l => Some (update_section s (section_of l) (Node (b_over b)))
   | _, _ => None
+  end.
+
+Definition lang_kind_of (l : key) : lang_kind :=
+  if str_eqb l [99; 112; 112] then LkCpp else if str_eqb l [112; 121] then LkPy else LkBase.
+
+(* create() as a state change of the builder: the LanguageConfig is updated in place, then the target
+   Language is constructed (its options dict, which lives inside the config, is validated in place).
+   Result: (builder afterwards, Some options of the target language | None = create raised). *)
+Definition bcreate_st (b : builder) : builder * option (list (key * cv)) :=
+  match bcreate b, resolve_language b with
+  | Some s, Some l =>
+      let '(o, s') := language_init (lang_kind_of l) s (section_of l) in
+      ({| b_sections := Some s'; b_lang := b_lang b; b_over := b_over b |}, o)
+  | _, _ => (b, None)
   end.
 
 Definition new_builder (builtin : list (key * cv)) : builder :=
@@ -205,31 +310,6 @@ Definition language_of (ops : list bop) (init : option key) : option key :=
 Definition merge_files (builtin : option (list (key * cv))) (files : list cv) : option (list (key * cv)) :=
   fold_left (fun acc d => match acc with Some s => config_update s (cv_items d) | None => None end) files builtin.
 
-(* ---- Language: options seen by templates ------------------------------------------------ *)
-
-(* cpp: `if language_standard in defaults: options.update(defaults[language_standard])`
-   (None = ValueError because `std` is missing) *)
-Definition atom_key (a : atom) : option key := match a with AStr s => Some s | _ => None end.
-
-Definition cpp_validate (groups : list (key * list (key * cv))) (options : list (key * cv)) : option (list (key * cv)) :=
-  match dget [115; 116; 100] options with            (* options["std"] *)
-  | None => None
-  | Some (Leaf _ a) =>
-      match atom_key a with
-      | Some std => match dget std groups with
-                    | Some g => Some (dupdate options g)
-                    | None => Some options
-                    end
-      | None => Some options
-      end
-  | Some (Node _) => Some options
-  end.
-
-(* py: options["enable_serialization_asserts"] = True *)
-Definition py_validate (options : list (key * cv)) : list (key * cv) :=
-  dset [101; 110; 97; 98; 108; 101; 95; 115; 101; 114; 105; 97; 108; 105; 122; 97; 116; 105; 111; 110; 95; 97; 115; 115; 101; 114; 116; 115]
-       (Leaf false (ABool true)) options.
-
 (* ---- CLI: ArgparseRunner._create_language_context as builder operations ------------------ *)
 
 Definition cli_ops (arg : key -> option atom) (files : list cv) : list bop :=
@@ -242,3 +322,37 @@ Definition cli_ops (arg : key -> option atom) (files : list cv) : list bop :=
     | CliOverrideOptions k => [SetOverride k (Some (Node (cli_language_options arg)))]
     | CliCreate => []
     end) cli_calls.
+
+(* ---- several builders in one process ------------------------------------------------------- *)
+
+(* A LanguageContext keeps a reference to its builder's LanguageConfig (LanguageContext(self._ln_loader.config, ...)):
+   what a context reports is the CURRENT content of that object.  Each LanguageContextBuilder() owns a fresh
+   LanguageClassLoader whose config is parsed anew from the packaged yaml, so distinct builders share nothing. *)
+Inductive pop :=
+| PNew                           (* LanguageContextBuilder() *)
+| POp (i : nat) (op : bop)       (* a builder call on builder i *)
+| PCreate (i : nat).             (* builder i .create() *)
+
+Fixpoint upd_nth {A : Type} (i : nat) (f : A -> A) (l : list A) : list A :=
+  match l, i with
+  | [], _ => []
+  | x :: r, O => f x :: r
+  | x :: r, S i' => x :: upd_nth i' f r
+  end.
+
+Definition papply (builtin : list (key * cv)) (p : list builder) (o : pop) : list builder :=
+  match o with
+  | PNew => p ++ [new_builder builtin]
+  | POp i op => upd_nth i (fun b => bapply b op) p
+  | PCreate i => upd_nth i (fun b => fst (bcreate_st b)) p
+  end.
+
+Definition prun (builtin : list (key * cv)) (ops : list pop) (p : list builder) : list builder :=
+  fold_left (papply builtin) ops p.
+
+(* what a context created by builder i reports now *)
+Definition ctx_report (p : list builder) (i : nat) : option (option (list (key * cv))) :=
+  option_map b_sections (nth_error p i).
+
+Definition pop_touches (i : nat) (o : pop) : bool :=
+  match o with PNew => false | POp j _ => Nat.eqb i j | PCreate j => Nat.eqb i j end.
